@@ -11,6 +11,10 @@ func TestC11_Chained(t *testing.T) {
 	checkRapid(t, "C11", "TestC11_Chained", ruleC11Chain, drawC11Chain)
 }
 
+func TestC11_SharedSlice(t *testing.T) {
+	checkRapid(t, "C11", "TestC11_SharedSlice", ruleC11Shared, drawC11Shared)
+}
+
 func TestC11_Random(t *testing.T) {
 	checkRapid(t, "C11", "TestC11_Random", ruleC11Rnd, drawC11)
 }
